@@ -234,7 +234,6 @@ def dispatch(arg):
 
 def run(run):
     sh = fork.install_shims()
-    sh.update(install_float_shims())
     run.assumptions = ["float64 modelled as exact reals (ratio test of is_equivalent_to decided over the reals)",
                        "symbolic reals are treated as floats by isinstance/float inside corankco.scoringscheme"]
     run.outside = ["NaN / inf penalties", "float64 rounding of the ratio test", "bool entries (Python treats them as ints)"]
